@@ -44,3 +44,5 @@ SPEC = dict(
                  "termination is stated for runs of internal steps (every schedule, once the environment stops injecting "
                  "events); the Go scheduler is assumed to run every runnable goroutine eventually"],
 )
+
+SPEC["manifest"]["text"] += " A quarter of the scenarios use a reader that handles the error report under the lock its writers hold while writing (as ship.ShipConnection's sync.Once does); a third of the injected write faults are of the timeout kind (net.Error, Timeout() true)."
